@@ -220,7 +220,14 @@ def coxeter_case(draw, tier_L=None, ranks=(2, 3, 4, 5)):
         labels = [draw(st.sampled_from(list(range(2, 13)) + [0, 0]))]
     else:
         pool = draw(st.sampled_from([[2, 3, 0], [2, 3, 4, 5, 6, 7, 0], [2, 2, 3, 3, 4, 5, 0]]))
-        labels = [draw(st.sampled_from(pool)) for _ in range(npairs)]
+        if n == 5:
+            # at most three labels >= 4: with more of them the library's automata reach
+            # 10^4 states and take 5-30 s each to build
+            labels = [draw(st.sampled_from([2, 3, 0])) for _ in range(npairs)]
+            for _ in range(draw(st.integers(0, 3))):
+                labels[draw(st.integers(0, npairs - 1))] = draw(st.sampled_from([4, 5, 6, 7]))
+        else:
+            labels = [draw(st.sampled_from(pool)) for _ in range(npairs)]
     codes = [draw(st.sampled_from(INF_CODES)) for _ in range(3)]
     M = avoid_h4(full_matrix(n, labels, codes))
     case = dict(matrix=M)
